@@ -1,12 +1,36 @@
 /*UNIT
-{"props": ["C03","C06","C04"], "kind": "K1", "tier": "thorough", "timeout": 900,
- "extra_src": ["stubs/mem_sampled.c"], "cbmc": ["--sat-solver", "cadical"],
- "replace": ["ZSTD_safecopy"],
- "functions": ["ZSTD_execSequenceEnd"],
+{
+ "props": [
+  "C03",
+  "C06",
+  "C04"
+ ],
+ "kind": "K2",
+ "tier": "quick",
+ "timeout": 900,
+ "extra_src": [
+  "stubs/mem_ranges.c"
+ ],
+ "cbmc": [
+  "--sat-solver",
+  "cadical"
+ ],
+ "functions": [
+  "ZSTD_execSequenceEnd"
+ ],
  "floor": 80,
- "assumes": ["ZSTD_safecopy replaced by its contract (contracts/safecopy.h, assumed): REQUIRES destination range writable and source range readable; its byte-level effect is not modelled (content of the output is not claimed here)",
-             "decoder buffer geometry: one output object ending at oend; prefixStart <= op inside it; the part of the history that lies in the dictionary is modelled as the slice [virtualStart, prefixStart) of the same object (never accessed) so that virtualStart is an ordinary pointer; dictionary object of exactly prefixStart - virtualStart bytes ending at dictEnd; literal object ending at litLimit"],
- "what": "sequence execution near the end of the output on an ARBITRARY sequence (any offset including SIZE_MAX; literal and match length within the bounds that unit c03_decode_sequence proves for the sequence decoder): every length read from the stream is checked before use — the copy helpers are only ever asked to write inside [op, oend) and to read inside the literal buffer, the current prefix or the dictionary; result is an error or exactly litLength + matchLength; the literal cursor advances by litLength"}
+ "assumes": [
+  "calls of ZSTD_safecopy are redirected to a stub (assumed contract): it ASSERTS length >= 0, destination range writable, source range readable (and, for overlapping copies, source before destination in the same object) and makes the destination range arbitrary; its byte-level effect is not modelled",
+  "decoder buffer geometry: one output object ending at oend; prefixStart <= op inside it; the part of the history that lies in the dictionary is modelled as the slice [virtualStart, prefixStart) of the same object (never accessed) so that virtualStart is an ordinary pointer; dictionary object of exactly prefixStart - virtualStart bytes ending at dictEnd; literal object ending at litLimit"
+ ],
+ "what": "sequence execution near the end of the output on an ARBITRARY sequence (any offset including SIZE_MAX; literal and match length within the bounds that unit c03_decode_sequence proves for the sequence decoder): every length read from the stream is checked before use \u2014 the copy helpers are only ever asked to write inside [op, oend) and to read inside the literal buffer, the current prefix or the dictionary; result is an error or exactly litLength + matchLength; the literal cursor advances by litLength",
+ "replace_calls": {
+  "ZSTD_safecopy": "stub_safecopy"
+ },
+ "defines": [
+  "VERIF_MEM_HAVOC_SLICE"
+ ]
+}
 */
 #include "verif.h"
 #include "lib/common/error_private.c"
@@ -16,7 +40,16 @@
 #include "lib/common/entropy_common.c"
 #include "lib/common/fse_decompress.c"
 #include "lib/decompress/zstd_decompress_block.c"
-#include "safecopy.h"
+
+void stub_safecopy(BYTE* op, const BYTE* const oend_w, BYTE const* ip, ptrdiff_t length, ZSTD_overlap_e ovtype)
+{
+    (void)oend_w;
+    __CPROVER_assert(length >= 0, "C03 exec: copy length is not negative");
+    __CPROVER_assert(length == 0 || __CPROVER_w_ok(op, (size_t)length), "C03 exec: the copy helper writes inside the output object");
+    __CPROVER_assert(length == 0 || __CPROVER_r_ok(ip, (size_t)length), "C03 exec: the copy helper reads inside the literal buffer / the history");
+    __CPROVER_assert(ovtype != ZSTD_overlap_src_before_dst || length == 0 || (__CPROVER_same_object(op, ip) && __CPROVER_POINTER_OFFSET(ip) <= __CPROVER_POINTER_OFFSET(op)), "C03 exec: an overlapping match copy reads from before its destination");
+    if (length > 0) __CPROVER_havoc_slice(op, (size_t)length);
+}
 
 void harness(void)
 {
